@@ -265,7 +265,9 @@ def run(prog: Program, tier: str) -> List[RuleResult]:
     from .c03 import domain_cache
 
     # pattern domains and pattern literals are variable domains: the caching iterator must not lose or skip values
-    from .c01 import ep_quant
+    from .c01 import ep_quant, ep_thread
 
     # match_any compiles to the existential quantifier: one answer per binding of the free variables
-    return [match_table(prog), match_ops(prog), ident_dedup(prog), domain_cache(prog), ep_quant(prog)]
+    return [match_table(prog), match_ops(prog), ident_dedup(prog), domain_cache(prog), ep_quant(prog),
+            # selected inner parts are evaluated under the bindings of the matched element: the row threading of C01
+            ep_thread(prog)]
